@@ -160,6 +160,61 @@ func HarnessC02Slow(wcap int) {
 	verifrt.Cover("end", true)
 }
 
+// HarnessC10Slow: the node reads slowly. m requests of one client for node A are written while the
+// backend socket accepts only a solver-chosen number of bytes per write (nothing / a few bytes /
+// everything), with writable events in between that drain a solver-chosen part of the backlog, and with
+// the poller's task run (the write signal) falling before or after the next events of its batch. The
+// static part of the connection's outbound buffer holds `wcap` bytes, so the backlog spills into the
+// overflow list. Whatever the pattern: the node receives the requests byte-exact, complete, in the order
+// the client sent them.                                                             [C10, C02, C19]
+func HarnessC10Slow(wcap, m int) {
+	o := core.VerifDefaultOptions()
+	o.WriteBufferCap = wcap
+	w, _ := verifWorld2(o)
+	c := w.NewClient("10.0.0.1:5000")
+	verifrt.Assert(core.EngineGlobal.ProxyPool["A:1"].Get() != nil && len(w.Servers) == 1, "harness_backend_connection")
+	s := w.Servers[0]
+	var want []byte
+	accept := []int{0, 3, -1}
+	drain := []int{-2, 5, 20, -1}
+	forced := false
+	for i := 0; i < m; i++ {
+		var req []byte
+		k := []byte{'{', 'b', '}', byte('0' + i), verifrt.Byte("key")}
+		if i%2 == 1 {
+			req = core.VerifEncode([]byte("set"), k, []byte{verifrt.Byte("val")})
+		} else {
+			req = core.VerifEncode([]byte("get"), k)
+		}
+		want = append(want, req...)
+		verifrt.LimitWrites(s.Fd, accept[verifrt.Choice("socket_accepts", len(accept))])
+		w.Feed(c, req)
+		// the poller runs its queued tasks (the write signal) at the end of the epoll batch in which it is
+		// woken up: a writable event of the backend and the client's next read may be handled before that
+		deferred := !forced && w.TasksPending() && verifrt.Choice("tasks_run_after_the_next_events", 2) == 1
+		if !deferred {
+			w.RunTasks()
+		}
+		forced = deferred
+		if d := drain[verifrt.Choice("writable_event_drains", len(drain))]; d != -2 {
+			verifrt.LimitWrites(s.Fd, d)
+			w.Writable(s)
+		}
+	}
+	w.RunTasks()
+	for i := 0; i < 40 && s.OutboundBuffered() > 0; i++ {
+		verifrt.LimitWrites(s.Fd, 7)
+		w.Writable(s)
+	}
+	verifrt.LimitWrites(s.Fd, -1)
+	w.Writable(s)
+	got := w.Sent(s)
+	verifrt.ObserveBytes("node", got)
+	verifrt.Assert(len(got) == len(want) && isPrefix(got, want), "slow_node_receives_the_requests_byte_exact_in_client_order")
+	verifrt.Assert(s.OutboundBuffered() == 0 && s.Opened() && c.Opened(), "backlog_drained_connections_open")
+	verifrt.Cover("end", true)
+}
+
 // bigBulk: a bulk reply of n payload bytes: a concrete repeating pattern that differs per reply
 // (so that bytes of one reply showing up in another are visible) with arbitrary bytes at the first,
 // middle and last position.
@@ -232,6 +287,7 @@ func HarnessBig(mode, n, n2, rcap int) {
 
 func init() {
 	verifrt.Register("HarnessBig", func(p []int64) { HarnessBig(int(p[0]), int(p[1]), int(p[2]), int(p[3])) })
+	verifrt.Register("HarnessC10Slow", func(p []int64) { HarnessC10Slow(int(p[0]), int(p[1])) })
 	verifrt.Register("HarnessC02Slow", func(p []int64) { HarnessC02Slow(int(p[0])) })
 	verifrt.Register("HarnessC02Rsp", func(p []int64) { HarnessC02Rsp(int(p[0]), int(p[1]), int(p[2])) })
 }
